@@ -646,8 +646,8 @@ class Run(ExtraOps):
         self.factory(
             op, [t],
             (lambda: self.shared_apply(op, t, lambda: __import__("lsst.daf.relation", fromlist=["Projection"]).Projection(
-                frozenset(tags[c] for c in want)))) if op.get("shared") else
-            (lambda: t.rel.with_only_columns({tags[c] for c in want}, **self.flags(op))),
+                frozenset(tags[c] for c in sorted(want))))) if op.get("shared") else
+            (lambda: t.rel.with_only_columns({tags[c] for c in sorted(want)}, **self.flags(op))),
             lambda rel: self._umodel(t, op, rel, lambda v: M.m_proj(v, want, pe, bt)),
         )
 
